@@ -449,6 +449,92 @@ def rule_r4(repo):
     return rr
 
 
+def rule_r14(repo, rule='C09.R14'):
+    """command_decode folded for the eight combinations of (multiple messages, attributed, json) with scripted collaborators: every
+    message is rendered exactly once by the renderer that belongs to the requested format, and a message handed to a *nested*
+    renderer has been wired - by the decoder, by the scanner or by the command itself (an unwired message renders as a hierarchy
+    without data, which converts back to empty subsets)."""
+    from sa.patheval import Stub, LazyIter
+    rr = RuleResult(rule, 'the decode command renders every message once with the renderer of the requested format, nested formats from wired data')
+    fi = repo.func('commands', 'command_decode')
+    renderers = {'FlatTextRenderer': (False, False), 'FlatJsonRenderer': (True, False), 'NestedTextRenderer': (False, True), 'NestedJsonRenderer': (True, True)}
+
+    class CmdInterp(Interp):
+        def message(self, k, wired):
+            it = self
+            state = {'wired': bool(wired)}
+
+            def wire(interp, a, kw, node, frame):
+                state['wired'] = True
+                return None
+            m = Stub('message %d' % k, {'wire': wire})
+            m.state = state
+            return m
+
+        def wire_option(self, kwargs, default=True):
+            w = kwargs.get('wire_template_data', default)
+            return w if isinstance(w, bool) else bool(self.truth(w))
+
+        def on_call(self, text, callee, args, kwargs, node, frame):
+            it = self
+            if text == 'Decoder':
+                def process(interp, a, kw, node, frame):
+                    it.event('decode', 'single')
+                    return it.message(0, it.wire_option(kw))
+                return Stub('decoder', {'process': process})
+            if text == 'generate_bufr_message':
+                it.event('decode', 'stream')
+                return LazyIter([it.message(k, it.wire_option(kwargs)) for k in (0, 1)], lambda k: None, 'scanner')
+            if text in renderers:
+                def render(interp, a, kw, node, frame, cls=text):
+                    m = a[0] if a else None
+                    if isinstance(m, Stub) and hasattr(m, 'state'):
+                        it.event('render', cls, m.label, m.state['wired'])
+                    else:
+                        it.event('render', cls, repr(m), None)
+                    return Sym('RENDERED')
+                return Stub(text, {'render': render})
+            if text == 'open':
+                return Stub('file', {'read': lambda interp, a, kw, node, frame: Sym('STREAM')})
+            if text.startswith('json.') or text.startswith('log.') or text.startswith('sys.'):
+                return Top('text')
+            return self.NOT_HANDLED
+
+        def builtin(self, name, args, kwargs, node, frame):
+            if name == 'print':
+                return None
+            return Interp.builtin(self, name, args, kwargs, node, frame)
+    for multiple in (False, True):
+        for attributed in (False, True):
+            for js in (False, True):
+                ns = Obj('Namespace', {'filenames': ['f.bufr'], 'definitions_directory': None, 'tables_root_directory': None, 'compiled_template_cache_max': None,
+                                       'continue_on_error': False, 'ignore_value_expectation': False, 'filter': None, 'attributed': attributed, 'json': js,
+                                       'multiple_messages': multiple})
+                it = CmdInterp(repo, None)
+                res = it.run_function(fi, lambda: {'ns': ns})
+                what = 'decode%s%s%s' % (' -m' if multiple else '', ' -a' if attributed else '', ' -j' if js else '')
+                rr.instance(what)
+                want_n = 2 if multiple else 1
+                for r in res:
+                    if not r.ok:
+                        rr.fail('commands.command_decode:raises', fi.where, '%s ends in %s on a scripted stream of sound messages' % (what, r.describe()), witness={'command': what})
+                        continue
+                    rs = [e for e in r.events if e[0] == 'render']
+                    if [e[2] for e in rs] != ['message %d' % k for k in range(want_n)]:
+                        rr.fail('commands.command_decode:rendered-once', fi.where, '%s renders %s; expected each of the %d message(s) once, in order' % (what, [e[2] for e in rs], want_n),
+                                witness={'command': what})
+                        continue
+                    for e in rs:
+                        if renderers.get(e[1]) != (js, attributed):
+                            rr.fail('commands.command_decode:format', fi.where, '%s renders with %s' % (what, e[1]), witness={'command': what})
+                        elif attributed and e[3] is not True:
+                            rr.fail('commands.command_decode:unwired', fi.where, '%s hands %s to %s before the message has been wired (the decode call asked for no wiring and the '
+                                    'command does not wire it): the hierarchy is printed without its data, and converting that back gives empty subsets instead of the '
+                                    'flat JSON' % (what, e[2], e[1]), witness={'command': what})
+    rr.require_floor(8)
+    return rr
+
+
 class TextInterp(Interp):
     """Renderers and text readers on concrete node trees / lines (format() renders descriptors through their own __str__)."""
     LIST_CAP = 400
@@ -1012,6 +1098,7 @@ def run(repo, check):
     check.run_rule(rule_r2, repo)
     check.run_rule(rule_r3, repo)
     check.run_rule(rule_r4, repo)
+    check.run_rule(rule_r14, repo)
     check.run_rule(rule_r5, repo)
     from sa.rules import c06
     r6 = c06.rule_r3(repo)
